@@ -153,6 +153,23 @@ func (c10) Exec(c Case) []string {
 			client.Send(c10packet(op[1], unhx(op[2])))
 		case "sendraw":
 			client.SendRaw(unhx(op[1]))
+		case "sendrawfail":
+			// the connection is broken for this one write: SendRaw returns an error
+			st.mu.Lock()
+			st.failAt[st.nwrite+1] = true
+			st.mu.Unlock()
+			client.SendRaw(unhx(op[1]))
+		case "sendptr":
+			// a stanza passed by pointer (Message and Presence implement Packet with value receivers, so &m is a
+			// Packet too; IQs are always pointers)
+			switch p := c10packet(op[1], unhx(op[2])).(type) {
+			case stanza.Message:
+				client.Send(&p)
+			case stanza.Presence:
+				client.Send(&p)
+			default:
+				client.Send(p)
+			}
 		case "ack":
 			h, _ := strconv.Atoi(op[1])
 			xmpp.VerifRoute(router, client, stanza.SMAnswer{H: uint(h)})
@@ -190,6 +207,13 @@ func (c10) Generate(rng *rand.Rand, tier string, st *Stats) []Case {
 	mk("corpus-ack1", [][]string{{"sendraw", hx("<x/>")}, {"sendraw", hx("<y/>")}, {"ack", "1"}})
 	mk("corpus-stale", [][]string{{"sendraw", hx("<x/>")}, {"ack", "1"}, {"sendraw", hx("<y/>")}, {"ack", "1"}, {"ack", "2"}})
 	mk("corpus-answer-not-held", [][]string{c10op("a", "3"), c10op("r", ""), {"ack", "0"}})
+	mk("corpus-write-fails", [][]string{{"sendraw", hx("<a/>")}, {"sendrawfail", hx("<b/>")}, {"sendraw", hx("<c/>")}, {"ack", "1"}, {"sendrawfail", hx("<d/>")}, {"ack", "2"}})
+	{
+		pm := c10op("message", "pm")
+		pp := c10op("presence", "pp")
+		pm[0], pp[0] = "sendptr", "sendptr"
+		mk("corpus-pointer-stanzas", [][]string{c10op("message", "m1"), pm, pp, {"ack", "1"}})
+	}
 	mk("corpus-race", [][]string{{"sendraw", hx("<x/>")}, {"race", hx("<slow/>"), hx("<fast/>")}, {"ack", "2"}, {"race", hx("<slow2/>"), hx("<fast2/>")}, {"ack", "3"}})
 	mk("corpus-recv-answer-not-held", [][]string{{"sendraw", hx("<x/>")}, c10req(0), {"sendraw", hx("<y/>")}, {"ack", "1"}, {"inmsg"}, c10req(1), {"ack", "2"}})
 	// bounded-exhaustive: all histories of length <= L over a small alphabet
@@ -247,7 +271,17 @@ func (c10) Generate(rng *rand.Rand, tier string, st *Stats) []Case {
 				st.Inc("op_race")
 				continue
 			}
-			switch x := rng.Intn(14); {
+			switch x := rng.Intn(16); {
+			case x == 14:
+				ops = append(ops, []string{"sendrawfail", hx(fmt.Sprintf("<lost n='%d'/>", sent))})
+				sent++
+				st.Inc("op_sendraw_write_fails")
+			case x == 15:
+				o := c10op([]string{"message", "presence"}[rng.Intn(2)], fmt.Sprintf("ptr%d", sent))
+				o[0] = "sendptr"
+				ops = append(ops, o)
+				sent++
+				st.Inc("op_send_pointer")
 			case x == 12:
 				ops = append(ops, []string{"inmsg"})
 				inb++
